@@ -12,6 +12,7 @@ import (
 	"os"
 	"sort"
 	"strconv"
+	"strings"
 	"sync"
 	"time"
 )
@@ -173,7 +174,33 @@ func (r *Run) NViolations() int {
 
 // Enough reports that plenty of witnesses have been collected: every further failing case usually costs a
 // watchdog, so generators stop producing cases (the run then ends with the violations it has).
-func (r *Run) Enough() bool { return r.NViolations() >= 12 }
+// Keys listed as open known findings (handed over by the driver in VF_KNOWN_KEYS, a trailing * is a wildcard) are
+// not witnesses of anything new and do not count: a known finding must never shorten the exploration.
+func (r *Run) Enough() bool {
+	r.mu.Lock()
+	defer r.mu.Unlock()
+	n := 0
+	for k, c := range r.res.ViolationsN {
+		if !knownKey(k) {
+			n += c
+		}
+	}
+	return n >= 12
+}
+
+var knownKeys = strings.Split(os.Getenv("VF_KNOWN_KEYS"), "\n")
+
+func knownKey(k string) bool {
+	for _, p := range knownKeys {
+		if p == "" {
+			continue
+		}
+		if p == k || (strings.HasSuffix(p, "*") && strings.HasPrefix(k, strings.TrimSuffix(p, "*"))) {
+			return true
+		}
+	}
+	return false
+}
 
 func (r *Run) Inconclusive(reason string) {
 	r.mu.Lock()
